@@ -29,40 +29,52 @@ STRENGTH = "partial"
 LEVEL_TEXT = (
     "Lean theorems for every state of the closed loop of one object (any records, last-handled state, deletion mark, own "
     "finalizer, memory flags incl. the in-memory set of resuming handlers already done (6c4463d), clock, handler set, lifecycle, "
-    "limits, delays — no bounds). FULL (no guard beyond well-formedness): terminates_or_fails (NO assumption on the handlers' "
-    "scripts: within the explicit bound = ranking function the loop is quiescent or reaches a handling turn that consumes one "
-    "scripted failure; every cause incl. deletion and the finalizer-adjusting turn composed with C06's `decision`), terminates "
-    "(its corollary once the outcomes are final), final_state_deleted, deletion_converges, open_pass_leaves_event (all three "
-    "patch classes: changing, constant, no request at all — C03-F7/7224f57 and C03-N1/b7bf39c), all_selected_completed, "
-    "restart_safe (induction over every history of turns with arbitrary outcomes, edits, deletion requests, restarts, kills "
-    "before/after the write, where EACH action has its own environment: selection, prematch, finalizer requirement may change "
-    "with every edit), accumulated_change (cause from last-handled and final essence only, at most one closing pass; the "
-    "old/new/diff kwargs are checked by the oracle only), skip_path_purges, blind_quiescent, free_quiescent. PARTIAL, each with "
-    "the exact guard in its statement and a proved witness that the guard is needed, replayed on the real code through the "
-    "corpus: final_state / converges need `prematch` — blind_witness (OPEN C03-F2) — and `marked = false` — for a marked object "
-    "held only by a foreign finalizer free_witness (OPEN C03-N4); completed_against_final_partial under 'the handler has not "
-    "finished yet when the final state arrives' — absorbed_change_witness (OPEN C03-F4); shared_id_witness: one id registered "
-    "for update and delete, the finished update record is taken for the deletion handler's (OPEN C03-N3; the model mirrors the "
-    "code, `all_selected_completed` is stated per ID, so only the oracle, which looks at the CALLS of the deletion handler, sees "
-    "it); terminates_stable is `terminates` transported under the guard FiltersStable, which IS the needed fact "
-    "(filtersStable_of_essence gives the sufficient condition 'filters read the essence only'). NOT PROVED: that a script with "
-    "finitely many failures is left behind after finitely many failure-consuming turns (needs: retry counters of selected "
-    "handlers are not reset while the cycle is open); every generated script is finite and judged by the oracle to the end. "
+    "limits, delays — no bounds). FULL (no guard beyond well-formedness): terminates_finitely_failing (the property's quantifier "
+    "'every handler outcome script with finitely many failures': if from some retry number on every invocation is final, the loop "
+    "reaches quiescence from EVERY state, every cause incl. deletion and the finalizer-adjusting turn composed with C06's "
+    "`decision`; proof = terminates_or_fails + a failure budget that no turn raises — retry counters of selected handlers are never "
+    "reset while the cycle is open — and every failure-consuming turn lowers), terminates_or_fails (NO assumption on the scripts: "
+    "within the explicit bound = ranking function the loop is quiescent or consumes one scripted failure), terminates (outcomes "
+    "final from now on: within the explicit bound of the state), final_state_deleted, deletion_converges(_finitely_failing), "
+    "open_pass_leaves_event (all three patch classes: changing, constant, no request at all — C03-F7/7224f57 and C03-N1/b7bf39c), "
+    "all_selected_completed, restart_safe (induction over every history of turns with arbitrary outcomes, edits, deletion requests, "
+    "restarts, kills before/after the write, where EACH action has its own environment: selection, prematch, finalizer requirement "
+    "may change with every edit; the state reached converges under finitely-failing scripts), accumulated_change (cause from "
+    "last-handled and final essence only, at most one closing pass; the old/new/diff kwargs are checked by the oracle only), "
+    "skip_path_purges, blind_quiescent, free_quiescent. PARTIAL, each with the exact guard in its statement and a proved witness "
+    "that the guard is needed, replayed on the real code through the corpus: final_state / converges(_finitely_failing) need "
+    "`prematch` — blind_witness (OPEN C03-F2) — and `marked = false` — for a marked object held only by a foreign finalizer "
+    "free_witness (OPEN C03-N4); completed_against_final_partial under 'the handler has not finished yet when the final state "
+    "arrives' — absorbed_change_witness (OPEN C03-F4); shared_id_witness: one id registered for update and delete, the finished "
+    "update record is taken for the deletion handler's (OPEN C03-N3; the model mirrors the code, `all_selected_completed` is stated "
+    "per ID, so only the oracle, which looks at the CALLS of the deletion handler, sees it); terminates_stable_partial is "
+    "`terminates` transported under the guard FiltersStable (filters do not read what the framework writes; "
+    "filtersStable_of_essence gives the sufficient condition 'filters read the essence only') — unstable_filters_witness: a "
+    "deletion handler whose filter reads the framework's own finalizer makes the loop add and remove it for ever (replayed on the "
+    "real operator turn by turn, corpus G1; a misuse, not a finding). "
+    "Cycles that START with a carried patch (`memory.remaining_patch`; how it gets there is C08's transport, not modelled) have "
+    "their own turn `loopStepC`: every theorem above is about cycles without one (carried_none_partial); a carried patch that "
+    "still changes the object re-triggers the cycle (carried_ops_leaves_event); one that has become a no-op swallows the cycle: "
+    "carried_noop_witness = the negation of convergence, carried_noop_blocks_release_witness = a deletion that is never released "
+    "(OPEN C03-N2, two corpus witnesses), both tied on the real operator's cycle. "
     "Repaired in /repo and kept as regressions: C03-F1 (2ae938f), C03-F3 (d1b2dc4), C03-F5 (1c8f3dd, finalizer functions only — "
-    "the rest is C03-N2, OPEN, carried patches are C08's transport and not in this model: oracle only), C03-F7 (7224f57), C03-N1 "
+    "the rest is C03-N2), C03-F7 (7224f57), C03-N1 "
     "(b7bf39c, sleeping_handler_woken_instance), 5dff3c1 (lost echo + constant on.event result). C03-F6 (name-addressed patches "
-    "after delete+recreate) lies in C08's part and is found by the oracle only. 'A further event causes no write' reads `writes "
-    "+ cp env`: with a constant patch one request per event is sent, changing nothing. ORACLE/TIE ONLY: changes made while down "
-    "are seen after the start (`restart` sets `pending` by definition; tie), old/new/diff of the accumulated change, delivery "
+    "after delete+recreate) lies in C08's part and is found by the oracle only; C03-N5 (a graceful stop that never finished: an "
+    "observation on C19/C20's ground found by these histories, = C20-F8) is repaired by ab6fb15 and kept as a regression. 'A further event causes no write' reads "
+    "`writes + cp env`: with a constant patch one request per event is sent, changing nothing. ORACLE/TIE ONLY: changes made while "
+    "down are seen after the start (`restart` sets `pending` by definition; tie), old/new/diff of the accumulated change, delivery "
     "timings (one `pending` flag; stale/suppressed cycles are C07's). The model is hand-written and tied per turn to "
     "whole-operator simulations incl. finalizer turns, deletion tails, foreign finalizers, patch functions without operations; "
     "daemons (C09), the consistency wait (C07), patch conflicts and carried patches (C08) are outside this model.")
 THEOREMS = [("Kopf.Props.C03", "Kopf.C03." + n) for n in [
-    "terminates_or_fails", "terminates", "final_state", "final_state_deleted", "converges", "deletion_converges",
+    "terminates_or_fails", "terminates", "terminates_finitely_failing", "final_state", "final_state_deleted",
+    "converges", "converges_finitely_failing", "deletion_converges", "deletion_converges_finitely_failing",
     "all_selected_completed", "completed_against_final_partial", "absorbed_change_witness",
     "open_pass_leaves_event", "sleeping_handler_woken_instance", "invoked_once_after_last_change", "restart_safe",
     "accumulated_change", "blind_quiescent", "blind_witness", "free_quiescent", "free_witness", "shared_id_witness",
-    "skip_path_purges", "terminates_stable", "filtersStable_of_essence"]]
+    "carried_none_partial", "carried_ops_leaves_event", "carried_noop_witness", "carried_noop_blocks_release_witness",
+    "skip_path_purges", "terminates_stable_partial", "unstable_filters_witness", "filtersStable_of_essence"]]
 RULE = ("seeded histories of one object: 1-4 change handlers (create/update/resume/delete, label filters, retries/timeout/backoff/"
         "errors, scripts with finitely many temporary/arbitrary/permanent failures then ok, handlers that take time (8 %), ONE id "
         "registered for two causes (6 %), three lifecycles), 0-6 external ops (spec edits, reverts, label flips, annotation edits, "
@@ -74,7 +86,10 @@ RULE = ("seeded histories of one object: 1-4 change handlers (create/update/resu
         "function, which is then carried as a no-op), a foreign finalizer on the object (7 %, let go at the end in half of them), "
         "objects existing before the first start, objects whose essence is empty ({} / empty spec / status only); then a silent "
         "tail long enough for every scripted failure. One case = one history; distinct & non-trivial = distinct (outstanding "
-        "change, restart kinds, tail pass shapes, final classification) with at least one handler-reason pass or restart")
+        "change, restart kinds, tail pass shapes, final classification) with at least one handler-reason pass or restart. Besides, "
+        "the corpus holds one history OUTSIDE the quantifier (`guard_witness`: a deletion handler whose filter reads the framework's "
+        "own finalizer): never judged by the oracle, its cycles are compared turn by turn with the Lean instance of "
+        "unstable_filters_witness (the loop never settles)")
 TRUSTED = ["harness/sim (virtual-time loop, fake API server, scripted handlers, attribute-level observation of kopf)",
            "harness/props/sim_c03.py (kill hooks on the in-flight PATCH, windowed connection faults, stream cuts, patch-function action)",
            "abstraction of the tail's first pass: records decoded with kopf's own progress storage (C16's subject), "
@@ -83,25 +98,35 @@ ASSUMPTIONS = ["GUARD FiltersStable: selection / prematch / finalizer requiremen
                "framework itself writes (records, last-handled, touch-dummy, finalizer, status.<handler>); generated filters are "
                "label filters (no when=/field= filters: they are C15's; a filter reading status.<handler> is outside the guard); "
                "without the guard nothing is claimed (Props: terminates_stable)",
-               "'finitely many failures': terminates_or_fails needs no assumption on the scripts (each failure-consuming turn is "
-               "reached within the bound); `terminates` takes the outcomes from the state on as final (`AllFinal`). That finitely "
-               "many failure-consuming turns exhaust a finite script (retry counters of selected handlers are not reset while the "
-               "cycle is open) is not proved; every generated script has finitely many failures and the oracle checks its history "
-               "to the end",
-               "`memory.remaining_patch` (transformation functions carried over after a rejected JSON-patch) is not in the model: "
-               "a cycle that starts with a carried patch skips the handlers (OPEN finding C03-N2 lives there); the oracle judges "
-               "those histories, the tie skips tails in which a function is sent or carried (`user-patch-fns`, counted)",
+               "'finitely many failures' = FinitelyFailing: ∃ N, every invocation with retry ≥ N is final (the generated scripts: "
+               "finitely many temporary/arbitrary/permanent failures, then success). terminates_finitely_failing gives quiescence "
+               "without a bound in terms of the first state alone; the explicit bound holds per failure-free stretch "
+               "(terminates_or_fails) and for AllFinal (terminates)",
+               "an object NO handler matches (any more) is outside the operator's scope: the oracle does not require its "
+               "last-handled annotation to equal the essence (an outdated one is what makes the changes made meanwhile arrive "
+               "as ONE accumulated update when it matches again); leftover progress RECORDS on it are the finding C03-F2. "
+               "Likewise for an object in deletion that only others hold (C03-N4)",
+               "progress records live in annotations (the default storage); StatusProgressStorage / SmartProgressStorage and "
+               "sub-handlers, when=/field= filters are not generated (C16's, C13's, C15's subjects)",
+               "`memory.remaining_patch` (transformation functions carried over after a rejected JSON-patch): how a patch comes to "
+               "be carried is C08's transport and not in the model; what a cycle that STARTS with one does is (`loopStepC`: handlers "
+               "skipped; re-sent, or nothing to send = OPEN finding C03-N2) and is tied when it is the tail's first cycle and no "
+               "other function is sent in the tail; every other tail in which a function is sent or carried is skipped by the tie "
+               "(`user-patch-fns`, counted); the oracle judges all of them",
                "`Env.subs` lists every sub-handler id occurring in stored or returned subrefs (else `writes` may miss a "
                "purge-only PATCH; termination and final_state do not depend on it); no sub-handlers are generated (their passes "
                "are C02's `cycle2` / C13's subject)",
                "`Env.constPatch` (a patch that changes nothing in every cycle, e.g. an on.event handler returning a constant) is "
-               "modelled for the request count and the sleep/touch decision; NOT modelled: the cycle after a keepalive touch that "
-               "wakes nobody then also cleans the touch-dummy, which does change the object (one more PATCH + echo per keepalive "
-               "round) — such tails are skipped by the tie (`const-patch+keepalive`, counted)",
+               "modelled for the request count and the sleep/touch decision, a patch of functions without operations as 'no "
+               "patch'; NOT modelled: `apply` adds the touch-dummy cleanup to ANY non-empty patch, so with such a patch in every "
+               "cycle the cycle after a keepalive touch that wakes nobody does change the object (one more PATCH + echo per "
+               "keepalive round) — such tails are skipped by the tie (`const-patch+keepalive`, counted); likewise any tail cycle on a body "
+               "that still carries a touch-dummy (e.g. the operator was killed right after a touch) in which no handler runs "
+               "(`const-patch+dummy`, counted), and a tail in which the echo of the merge half of a two-request write is "
+               "processed as a cycle of its own (held back by C07's barrier, but sending the constant patch: "
+               "`const-patch+mid-tail-echo`, counted). The oracle judges those histories",
                "handlers that take time are generated and judged by the oracle; the model's pass has ONE clock reading, so a tail "
                "in which a handler call takes time is skipped by the tie (`handler-takes-time`, counted)",
-               "patch functions of change handlers (JSON-patch after merge-patch, 422, carried patches) are C08's transport: a tail "
-               "in which one is sent or carried is skipped by the tie (`user-patch-fns`, counted); the oracle judges those histories",
                "handlers return no result (no status.<handler> write besides the progress record), except on.event constants",
                "randomized/shuffled lifecycles are not modelled",
                "tail cycles the model has no turn for are dropped and COUNTED (`tail_leading_cycles_dropped`): cycles held back by "
@@ -423,6 +448,14 @@ def oracle(ctx: Ctx, sc: dict, tr: dict) -> dict:
                      "no request, the sleep and the touch were skipped", {**rep, "final": f.final}, SIG_N1, tag="C03-N1")
                 out["class"] = "lost-wakeup"
                 return out
+            if f.lost_wakeup:
+                fail("the deletion stopped for good with the object still held by the framework's finalizer: the last cycle carried "
+                     "a remaining patch, skipped the handlers (and the release) and wrote nothing, so no event will ever re-trigger it",
+                     {**rep, "final": f.final},
+                     {"finalizer": SIG_F5, "handler": SIG_N2}.get(f.lost_wakeup, {"site": "process_resource_event", "shape": "a patch is carried into a cycle although the cycle before had no conflict"}),
+                     tag={"finalizer": "C03-F5", "handler": "C03-N2"}.get(f.lost_wakeup))
+                out["class"] = "lost-wakeup"
+                return out
             fail("object marked for deletion is still held by the framework's finalizer at quiescence",
                  {**rep, "final": f.final}, {"site": "process_resource_causes", "shape": "marked object never released"})
             out["class"] = "stuck-deletion"
@@ -647,10 +680,12 @@ def abstract_tail(sc: dict, tr: dict, cap: int) -> tuple[list | None, Any]:
             return None, "user-patch-fns"
     const_patch = any(h["kind"] == "event" and isinstance(h.get("default"), list) and len(h["default"]) > 1 and h["default"][0] == "ok"
                       for h in sc["handlers"])
-    if const_patch and any(isinstance(a, list) and a[0] == "temp" and len(a) > 1 and a[1] * 64 > cap
+    every_patch = const_patch or idle_vals is not None      # every cycle's patch is non-empty (truthy) without changing anything
+    if every_patch and any(isinstance(a, list) and a[0] == "temp" and len(a) > 1 and a[1] * 64 > cap
                            for h in sc["handlers"] for a in h.get("script", [])):
-        # not modelled: with a constant no-op patch in every cycle, the cycle after a keepalive touch that wakes nobody
-        # sends that patch TOGETHER with the touch-dummy cleanup — which does change the object: one more PATCH + echo
+        # not modelled: with a non-empty no-op patch in every cycle (constant content, or functions without operations),
+        # the cycle after a keepalive touch that wakes nobody gets the touch-dummy cleanup added to that patch (`if patch:
+        # touch(value=None)`) — which does change the object: one more PATCH + echo
         return None, "const-patch+keepalive"
     if any(float(w["t1"]) >= f.t_for for w in sc.get("wfaults", [])):
         return None, "fault-window-in-tail"   # the closing edit of the window had no effect (e.g. the object was gone by then)
@@ -696,6 +731,10 @@ def abstract_tail(sc: dict, tr: dict, cap: int) -> tuple[list | None, Any]:
     # inside the tail: the echo of the merge half of a two-request write (e.g. the release: purge + finalizer removal),
     # held back by the barrier (C07) — the model's turn is atomic over both requests
     for c in [c for c in cycles[1:-1] if suppressed(c)]:
+        if const_patch:
+            # with a constant patch in every cycle the held-back cycle is not silent: it sends that patch (one more
+            # request, one more round trip before the next pass) — the model's atomic turn has no place for it
+            return None, "const-patch+mid-tail-echo"
         dropped["suppressed-mid-tail"] = dropped.get("suppressed-mid-tail", 0) + 1
         cycles.remove(c)
     # after the release of a deleted object: the echo of the merge half (held back by the barrier)
@@ -706,12 +745,31 @@ def abstract_tail(sc: dict, tr: dict, cap: int) -> tuple[list | None, Any]:
             t_trail = cycles.pop()["t0"]
     if not cycles:
         return None, "no-tail-pass"
+    if every_patch and any(dummy(c) and not [i for i in c["invoked"] if i["id"] in [h["id"] for h in _changing(sc)]] for c in cycles):
+        # not modelled (same gap as `const-patch+keepalive`): a cycle on a body that carries the touch-dummy (left by a
+        # touch whose operator was killed, or by a keepalive round) in which no handler runs; the constant patch then
+        # goes out together with the touch-dummy cleanup, which DOES change the object: one more PATCH + echo
+        return None, "const-patch+dummy"
     c0 = cycles[0]
     if idle_vals is not None and not all(v in ((c0["body"].get("status") or {}).get("seen") or []) for v in idle_vals):
         return None, "user-patch-fns"       # the tail starts before the functions became idle
-    if fn_users and idle_vals is None and ((c0.get("mem_before") or {}).get("remaining_patch")
-                                           or any("note_seen" in ((c.get("apply") or {}).get("fns") or []) for c in cycles)):
-        return None, "user-patch-fns"       # a handler's function is sent (or carried) inside the tail: C08's transport
+    carried = "none"
+    if fn_users:
+        # a handler's function inside the tail is C08's transport — except for ONE shape the model has a turn for
+        # (`loopStepC`): the tail's FIRST cycle starts with a carried patch (how it got there is not modelled), skips the
+        # handlers for that reason, and re-sends the functions (`ops`: one JSON-patch that is accepted) or has nothing to
+        # send (`noop`: the open finding C03-N2 when a change or a release is outstanding); no function anywhere else in
+        # the tail (other than the idle ones of on.event handlers, which are the same as no patch)
+        ap0 = c0.get("apply") or {}
+        sent = [r for r in f.patches if r.get("cycle_i") == c0["i"] and r.get("who") == f"op#{f.last_inc}"]
+        has_carry = bool((c0.get("mem_before") or {}).get("remaining_patch"))
+        later_fns = any("note_seen" in ((c.get("apply") or {}).get("fns") or []) for c in cycles[1:])
+        if has_carry and c0.get("pcc") is None and fin_turn(c0) is None and not ap0.get("remaining_fns") \
+                and all(isinstance(r.get("response"), int) and r["response"] < 300 for r in sent) \
+                and (idle_vals is not None or not later_fns):
+            carried = "ops" if any("json-patch" in str(r.get("ctype")) for r in sent) else "noop"
+        elif has_carry or (idle_vals is None and (later_fns or "note_seen" in (ap0.get("fns") or []))):
+            return None, "user-patch-fns"
     if gone:
         t_del = min((v["t"] for v in f.hist if v["event"] == "DELETED" and v["body"]["metadata"].get("uid") == f.uid), default=None)
         if t_del is not None and t_del <= c0["t0"]:
@@ -746,7 +804,8 @@ def abstract_tail(sc: dict, tr: dict, cap: int) -> tuple[list | None, Any]:
                     return None, "outcome-conflict"
             prevP = {k: v for k, v in p["P_after"].items() if k in owned}
         passes.append({
-            "reason": ft or (c["cause"]["reason"] if p is not None else "blind"),
+            "reason": ft or (c["cause"]["reason"] if p is not None else
+                             (f"carried-{carried}" if c is c0 and carried != "none" and not blind else "blind")),
             "selected": p["selected"] if p is not None else None,
             "invoked": inv,
             "now": p["now"] if p is not None else round(c["t0"] * 64),
@@ -776,7 +835,7 @@ def abstract_tail(sc: dict, tr: dict, cap: int) -> tuple[list | None, Any]:
                 passes[k]["blocked"] = FINALIZER in (f.final["metadata"].get("finalizers") or [])
     p0 = c0.get("pcc")
     mb = c0.get("mem_before")
-    if p0 is None and not blind and fin_turn(c0) is None:
+    if p0 is None and not blind and fin_turn(c0) is None and carried == "none":
         return None, "first-pass-suppressed"
     if c0.get("cause") is None:
         return None, "no-cause"
@@ -798,12 +857,13 @@ def abstract_tail(sc: dict, tr: dict, cap: int) -> tuple[list | None, Any]:
         "marked": bool(c0["body"]["metadata"].get("deletionTimestamp")),
         "blocked": FINALIZER in (c0["body"]["metadata"].get("finalizers") or []),
         "changeReq": change_req, "foreignFins": foreign,
-        "constPatch": const_patch,
+        "constPatch": const_patch, "carried": carried,
         "resumed": sorted((mb or {}).get("resumed_handlers") or []),
         "prematch": not blind, "now": passes[0]["now"],
         "lat": 1 + round(float((sc.get("echo_delay") or {}).get("default", 0.0)) * 64), "cap": cap, "rtt": 1,
         "fuel": n + 8, "universe": owned}]
-    return req, {"passes": passes, "quiescent": True, "dropped": dropped, "foreign": foreign, "idle": idle_vals is not None}
+    return req, {"passes": passes, "quiescent": True, "dropped": dropped, "foreign": foreign, "idle": idle_vals is not None,
+                 "carried": carried}
 
 
 def model_view(out: dict, impl: dict) -> dict:
@@ -1026,7 +1086,48 @@ def gen_scenario(rng: Any, i: int) -> dict:
 # ---- running ------------------------------------------------------------------------------------------------------
 
 def _corpus() -> list[tuple[str, dict]]:
-    return [(n, d["scenario"] if "scenario" in d else d) for n, d in load_corpus(ID)]
+    return [(n, d["scenario"] if "scenario" in d else d) for n, d in load_corpus(ID) if not d.get("guard_witness")]
+
+
+def guard_witnesses(ctx: Ctx) -> None:
+    """Histories OUTSIDE the property's quantifier that show a guard is needed (corpus files marked `guard_witness`):
+    a filter that reads what the framework itself writes. They are not judged by the oracle (the never-ending writes
+    are the user's filter flipping on the framework's own finalizer, not a defect); the real operator's cycles are
+    compared turn by turn with the Lean instance of `unstable_filters_witness` (`loopStepG envOfU`)."""
+    items = [(n, d) for n, d in load_corpus(ID) if d.get("guard_witness")]
+    if not items:
+        return
+    results = sim_c03.run_many([d["scenario"] for _, d in items], wall=40.0)
+    turns = 12
+    for (name, d), res in zip(items, results):
+        if "trace" not in res or res["trace"].get("sim_error"):
+            raise RuntimeError(f"guard witness {name}: simulation failed: {str(res)[:1500]}")
+        tr = res["trace"]
+        ctx.traces += 1
+        cycles = [c for c in tr["cycles"] if c["event_type"] != "DELETED"][:turns]
+        rows = []
+        for k, c in enumerate(cycles):
+            fns = (c.get("apply") or {}).get("fns") or []
+            nxt = tr["cycles"][k + 1]["body"] if k + 1 < len(tr["cycles"]) else None
+            rows.append({"reason": "add-finalizer" if "block_deletion" in fns else ("remove-finalizer" if "allow_deletion" in fns else "other"),
+                         "blocked": bool(nxt is not None and FINALIZER in (nxt["metadata"].get("finalizers") or [])),
+                         "invoked": len(c["invoked"]),
+                         "writes": len([r for r in tr["requests"] if r["method"] == "PATCH" and OBJ in r["path"] and r.get("cycle_i") == c["i"]]),
+                         "pending": nxt is not None})
+        aborted = any(m["what"] == "aborted" for m in tr["marks"])
+        try:
+            out = ctx.driver.ask([["C03.unstable", {"turns": turns}]])[0]
+        except leanio.LeanError as e:
+            ctx.tie_fail(f"Lean driver failed: {e}", {"log": e.log})
+            return
+        if not out or out[0] != "ok":
+            ctx.tie_fail("driver rejected the guard witness", {"answer": out})
+            continue
+        ctx.count("guard_witness", f"{d['guard_witness']}:{'never-settles' if aborted else 'settles'}")
+        ctx.compare(f"C03 guard witness {name} (filter reads the framework's own finalizer)",
+                    {"turns": rows, "never_settles": aborted}, {"turns": out[1]["turns"], "never_settles": True},
+                    {"scenario": d["scenario"], "guard_witness": d["guard_witness"]})
+        ctx.case(key={"guard_witness": d["guard_witness"], "never_settles": aborted}, nontrivial=True)
 
 
 def _evaluate(ctx: Ctx, scenarios: list[dict], tie: bool = True) -> None:
@@ -1078,6 +1179,9 @@ def _evaluate(ctx: Ctx, scenarios: list[dict], tie: bool = True) -> None:
                     ctx.count("tail_with", "foreign-finalizer")
                 if impl.pop("idle"):
                     ctx.count("tail_with", "idle-patch-fns")
+                cr = impl.pop("carried")
+                if cr != "none":
+                    ctx.count("tail_with", f"carried-patch-{cr}")
                 if req[1]["constPatch"]:
                     ctx.count("tail_with", "const-patch")
                 if req[1]["resumed"]:
@@ -1118,6 +1222,7 @@ def run(ctx: Ctx) -> None:
     chunk = 1000
     for k in range(0, len(scenarios), chunk):
         _evaluate(ctx, scenarios[k:k + chunk])
+    guard_witnesses(ctx)
 
 
 def search(ctx: Ctx, broken: list) -> None:
